@@ -778,9 +778,17 @@ def run(ctx):
         done = pending.get(3000)
         lap("workflows")
         by_name = {w["name"]: w for w in done}
-        for w in done:
-            if "error" in w:
-                ctx.machinery("workflow %s failed: %s" % (w["name"], w["error"]))
+        # A workflow that raises is not a sentence of the property failing: it is reported as drift, the observations of
+        # the steps it completed are still judged, and the other workflows go on.  (Nothing observed at all = our problem.)
+        if all("error" in w for w in done):
+            ctx.machinery("every workflow failed, e.g. %s: %s" % (done[0]["name"], done[0]["error"]))
+        usable = [i for i in hist_inputs if "error" not in by_name["fits-" + i]]
+        for i in hist_inputs:
+            if i not in usable:       # (reported as drift below, with the other raising workflows)
+                ctx.note("history_input_dropped_" + i, "its reference run raised; the histories are generated without it")
+        if not usable:
+            ctx.machinery("no history input could be tiled: %s" % by_name["fits-" + hist_inputs[0]]["error"])
+        hist_inputs[:] = usable
 
         # ---------------------------------------------------------------- (c) history machine
         pops = {}
@@ -827,7 +835,9 @@ def run(ctx):
         # through `toasty view`; explored to 3 calls.  Thorough replays every such history; quick replays, for every
         # 2-call beginning (interrupted X ; any call), one seeded 3-call continuation, plus a seeded sample of the
         # histories whose interrupted call comes second or third.
-        ipops = {i: pops[i] for i in (["A", "MFG", "S"] if quick else hist_inputs)}
+        ipops = {i: pops[i] for i in (["A", "MFG", "S"] if quick else hist_inputs) if i in pops}
+        if not ipops:
+            ipops = dict(pops)
         imod = {"MCWtmlHistory.tla": history_module(ipops, FITS_EXT, 3, only_interrupted=True)}
         icfg = dict(cfg, maxlen=3, fails=1, views="TRUE")
         ri = ctx.tlc("MCWtmlHistory", extra=imod, cfg_text=HISTORY_CFG % icfg, workers=4, timeout=1800)
@@ -918,7 +928,8 @@ def run(ctx):
 
         for w in list(done) + list(hdone):
             if "error" in w:
-                ctx.machinery("workflow %s failed: %s" % (w["name"], w["error"]))
+                ctx.drift("workflow %s raised after %d of %d steps (%s): %s" % (w["name"], len(w["obs"]), len(w["steps"]), " ; ".join(_steps(w)),
+                                                                              w["error"].splitlines()[0][:200]))
             for k, o in enumerate(w["obs"]):
                 ctx.count()
                 c = case_of(o)
